@@ -20,7 +20,7 @@ ASSUMPTIONS = ['merge model (harness/bv/model.py) for the layered variant',
 ALPHA = ['$', '$', '"', "'", '{', '}', ':', '.', ' ', 'a', 'b', 'A', '1', 'x']
 WORDS = ['$merge:x', '$merge', '$replace:a.b', '$replace', '$"{a}"', '$"x{a}y"', '$required', '$delete', '$match', '$output', '$env:HOME',
          '$repeat', '$repeat:x', '$encode', '$decode', '$value', '$parent', '$invert', '$mtach', '$foo', '$FOO', '${X}', '$(cmd)', '$1', 'a$b', '$',
-         '$$', '$ x', '$A.b', '{$env:HOME}', '$"', '$"abc', 'x$"y"', '$$merge:x']
+         '$$', '$ x', '$A.b', '$\u20ac5', '$\u2192x', '$\u65e5\u672c', '$\U0001F600', '$\u00e9t\u00e9', '$\u00df', 'a$\u20ac', '$_x', '$-x', '$.x', '$9x', '{$env:HOME}', '$"', '$"abc', 'x$"y"', '$$merge:x']
 
 
 def rstr(rng):
